@@ -265,9 +265,11 @@ structure FrameG (c : Nat) (r : Region) (m m' : Mem α) : Prop where
   nid : m.nextId ≤ m'.nextId
   fresh : Fresh m → Fresh m'
   bufOther : ∀ r', r' ≠ r → (∀ id, r' = .blk id → id < m.nextId) → m'.buf r' = m.buf r'
+  /-- the allocation counts of the pre-existing blocks of others are unchanged -/
+  cntOther : ∀ id, Region.blk id ≠ r → id < m.nextId → m'.cnt id = m.cnt id
 
 theorem FrameG.refl (c : Nat) (r : Region) (m : Mem α) : FrameG c r m m :=
-  ⟨rfl, rfl, rfl, fun _ _ => rfl, Nat.le_refl _, id, fun _ _ _ => rfl⟩
+  ⟨rfl, rfl, rfl, fun _ _ => rfl, Nat.le_refl _, id, fun _ _ _ => rfl, fun _ _ _ => rfl⟩
 
 theorem View.set_isSome (v : View α) (r : Region) (b : List (Slot α)) (h : (v r).isSome) (r' : Region) :
     ((v.set r b) r').isSome = (v r').isSome := by
@@ -539,20 +541,22 @@ theorem FrameG.elem {c : Nat} {r0 r1 : Region} {m m1 m2 : Mem α} {b : List (Slo
     (hreg : r1 = r0 ∨ ∃ id, r1 = .blk id ∧ m.nextId ≤ id) (hsome : (m1.buf r1).isSome)
     (hb : m2.buf = View.set m1.buf r1 b) (hk : Keep m1 m2) : FrameG c r0 m m2 := by
   refine ⟨hk.cat.trans h.cat, hk.hr.trans h.hr, by rw [hk.ws]; exact h.wsLen, fun c' hc => by rw [hk.ws]; exact h.wsOther c' hc,
-    by rw [hk.nid]; exact h.nid, fun hf => Fresh.ofSet (h.fresh hf) hk.nid hb hsome, ?_⟩
-  intro r' hne hold
-  have hne1 : r' ≠ r1 := by
-    rcases hreg with hreg | ⟨id, hreg, hge⟩
-    · rw [hreg]; exact hne
-    · intro heq
-      have := hold id (heq.trans hreg)
-      omega
-  rw [hb, View.set_other _ _ _ _ hne1]
-  exact h.bufOther r' hne hold
+    by rw [hk.nid]; exact h.nid, fun hf => Fresh.ofSet (h.fresh hf) hk.nid hb hsome, ?_, fun id hne hlt => ?_⟩
+  · intro r' hne hold
+    have hne1 : r' ≠ r1 := by
+      rcases hreg with hreg | ⟨id, hreg, hge⟩
+      · rw [hreg]; exact hne
+      · intro heq
+        have := hold id (heq.trans hreg)
+        omega
+    rw [hb, View.set_other _ _ _ _ hne1]
+    exact h.bufOther r' hne hold
+  · exact (hk.cnt id).trans (h.cntOther id hne hlt)
 
 theorem FrameG.same {c : Nat} {r0 : Region} {m m1 m2 : Mem α} (h : FrameG c r0 m m1) (hs : Same m1 m2) : FrameG c r0 m m2 :=
   ⟨hs.2.cat.trans h.cat, hs.2.hr.trans h.hr, by rw [hs.2.ws]; exact h.wsLen, fun c' hc => by rw [hs.2.ws]; exact h.wsOther c' hc,
-    by rw [hs.2.nid]; exact h.nid, fun hf => (h.fresh hf).ofSame hs, fun r' hne hold => by rw [hs.1]; exact h.bufOther r' hne hold⟩
+    by rw [hs.2.nid]; exact h.nid, fun hf => (h.fresh hf).ofSame hs, fun r' hne hold => by rw [hs.1]; exact h.bufOther r' hne hold,
+    fun id hne hlt => (hs.2.cnt id).trans (h.cntOther id hne hlt)⟩
 
 theorem FrameG.withWs {c : Nat} {r0 : Region} {m m1 : Mem α} (h : FrameG c r0 m m1) (w : VB) :
     FrameG c r0 m ({ m1 with ws := m1.ws.set c w } : Mem α) :=
@@ -561,7 +565,8 @@ theorem FrameG.withWs {c : Nat} {r0 : Region} {m m1 : Mem α} (h : FrameG c r0 m
       intro id hid
       rw [withWs_buf] at hid
       exact h.fresh hf id hid,
-    fun r' hne hold => by rw [withWs_buf]; exact h.bufOther r' hne hold⟩
+    fun r' hne hold => by rw [withWs_buf]; exact h.bufOther r' hne hold,
+    fun id hne hlt => (withWs_cnt _ _ _).trans (h.cntOther id hne hlt)⟩
 
 /-- an element-level effect on the (possibly fresh) region of container `c`, after a framed, leak-free prefix -/
 theorem FrameL.elem {cfg : Cfg} {c : Nat} {r0 r1 : Region} {m m1 m2 : Mem α} {b : List (Slot α)} (h : FrameL cfg c r0 m m1)
